@@ -102,6 +102,12 @@ FieldInjections(f) ==
           THEN {Inj("proto3_group", "group_proto3", set([x EXCEPT !.type = KGroup]))} ELSE {})
     \cup (IF f.syntax # "proto3" /\ x.label = 1 THEN {Inj("proto3_optional_outside_proto3", "proto3_optional", set([x EXCEPT !.p3opt = TRUE]))} ELSE {})
     \cup (IF f.syntax = "proto3" /\ x.label = 3 THEN {Inj("proto3_optional_repeated", "proto3_optional", set([x EXCEPT !.p3opt = TRUE]))} ELSE {})
+    \* proto3_optional without the synthetic oneof it stands for (no oneof_decl, no oneof_index)
+    \cup (IF f.syntax = "proto3" /\ x.label = 1 /\ x.oneof = 0 /\ ~x.p3opt
+          THEN {Inj("proto3_optional_outside_oneof", "proto3_optional", set([x EXCEPT !.p3opt = TRUE]))} ELSE {})
+    \* ... or moved out of its oneof, leaving the declaration behind
+    \cup (IF f.syntax = "proto3" /\ x.p3opt /\ x.oneof # 0
+          THEN {Inj("proto3_optional_oneof_index_dropped", "proto3_optional", set([x EXCEPT !.oneof = 0]))} ELSE {})
     \* a closed enum of another file where only open enums may be used
     \cup (IF f.syntax = "proto3" /\ x.label = 1 /\ x.oneof = 0 /\ ~x.hd /\ ~m.mapentry /\ x.type \notin {KMessage, KGroup}
           THEN {Inj("proto3_field_of_closed_enum", "proto3_closed_enum",
